@@ -1727,5 +1727,8 @@ def partition_distance(cx, cy):
     Hxy = -np.sum(Pxy * np.log(Pxy))
 
     Vin = (2 * Hxy - Hx - Hy) / np.log(n)
-    Min = 2 * (Hx + Hy - Hxy) / (Hx + Hy)
+    if Hx + Hy == 0:  # both partitions consist of a single block: identical
+        Min = 1.0
+    else:
+        Min = 2 * (Hx + Hy - Hxy) / (Hx + Hy)
     return Vin, Min
